@@ -23,6 +23,7 @@ package ro
 //@   binds mu getOrCreateSubject refCount config source subject
 //@   calls AddUnsubscribable NewObserverWithContext NewSubscriber ShareWithConfig$1$3$1 StoreInt32 SubscribeWithContext
 //@   params subscriberCtx destination
+//@   scope config ctx currentSourceSubscription currentSubject destination err getOrCreateSubject hasBeenResetOnCompletion hasBeenResetOnError mu refCount reset source sourceSubscription sub subject subscriberCtx
 //@   panicforks
 //@   maypanic
 //@   nolockleak
@@ -42,6 +43,7 @@ package ro
 //@   binds currentSubject currentSourceSubscription subject refCount
 //@   calls Unsubscribe
 //@   params currentSubject currentSourceSubscription
+//@   scope config ctx currentSourceSubscription currentSubject destination err getOrCreateSubject hasBeenResetOnCompletion hasBeenResetOnError mu refCount reset source sourceSubscription sub subject subscriberCtx
 //@   holding mu
 //@   track currentSourceSubscription.*
 //@   ensures [releases-the-upstream-of-that-generation|C11] trace(currentSourceSubscription.Unsubscribe())
@@ -55,6 +57,7 @@ package ro
 //@   binds ctx err config mu currentSubject currentSourceSubscription hasBeenResetOnError
 //@   calls ErrorWithContext Lock StoreInt32 Unlock fn:reset
 //@   params ctx err
+//@   scope config ctx currentSourceSubscription currentSubject destination err getOrCreateSubject hasBeenResetOnCompletion hasBeenResetOnError mu refCount reset source sourceSubscription sub subject subscriberCtx
 //@   track currentSubject.* currentSourceSubscription.*
 //@   ensures [resets-before-telling-the-subscribers|C11] config.ResetOnError ==> trace(currentSourceSubscription.Unsubscribe(), currentSubject.ErrorWithContext(ctx, err)) && heldat(mu, currentSourceSubscription.Unsubscribe) && notheldat(mu, currentSubject.ErrorWithContext)
 //@   ensures [marks-the-kept-generation-before-telling-the-subscribers|C11] !config.ResetOnError ==> trace(currentSubject.ErrorWithContext(ctx, err)) && atevent(currentSubject.ErrorWithContext, hasBeenResetOnError) == 1
@@ -66,6 +69,7 @@ package ro
 //@   binds ctx config mu currentSubject currentSourceSubscription hasBeenResetOnCompletion
 //@   calls CompleteWithContext Lock StoreInt32 Unlock fn:reset
 //@   params ctx
+//@   scope config ctx currentSourceSubscription currentSubject destination err getOrCreateSubject hasBeenResetOnCompletion hasBeenResetOnError mu refCount reset source sourceSubscription sub subject subscriberCtx
 //@   track currentSubject.* currentSourceSubscription.*
 //@   ensures [resets-before-telling-the-subscribers|C11] config.ResetOnComplete ==> trace(currentSourceSubscription.Unsubscribe(), currentSubject.CompleteWithContext(ctx)) && heldat(mu, currentSourceSubscription.Unsubscribe) && notheldat(mu, currentSubject.CompleteWithContext)
 //@   ensures [marks-the-kept-generation-before-telling-the-subscribers|C11] !config.ResetOnComplete ==> trace(currentSubject.CompleteWithContext(ctx)) && atevent(currentSubject.CompleteWithContext, hasBeenResetOnCompletion) == 1
@@ -77,6 +81,7 @@ package ro
 //@   binds sub mu currentSubject subject refCount config hasBeenResetOnError hasBeenResetOnCompletion reset currentSourceSubscription
 //@   calls LoadInt32 Lock Unlock Unsubscribe fn:reset
 //@   params -
+//@   scope config ctx currentSourceSubscription currentSubject destination err getOrCreateSubject hasBeenResetOnCompletion hasBeenResetOnError mu refCount reset source sourceSubscription sub subject subscriberCtx
 //@   inline ShareWithConfig$1$2
 //@   track sub.* currentSourceSubscription.*
 //@   ensures [leaves-the-subject|C11,C03] called(sub.Unsubscribe)
@@ -98,6 +103,7 @@ package ro
 //@ func (*connectableObservableImpl).ConnectWithContext
 //@   props C11 C13
 //@   binds s
+//@   scope config connection connections ctx ended mu s source subject subscription
 //@   inline (*connectableObservableImpl).disconnected
 //@   track source.* subscription.* SubscribeWithContext().* callfn.config.Connector
 //@   ensures [connects-once|C11] count(source.SubscribeWithContext) <= 1
@@ -111,6 +117,7 @@ package ro
 //@   note handles the end of a connection, once per connection; called with mu held
 //@   props C11 C13
 //@   binds s connection
+//@   scope config connection connections ended mu s source subject subscription
 //@   holding mu
 //@   track callfn.config.Connector
 //@   ensures [an-end-already-handled-changes-nothing|C11] connection <= old(ended) ==> trace() && subject == old(subject) && ended == old(ended)
@@ -120,6 +127,7 @@ package ro
 //@ func (*connectableObservableImpl).SubscribeWithContext
 //@   props C11 C13
 //@   binds ctx observer
+//@   scope config connections ctx ended mu observer s source subject subscription
 //@   track source.* subject.*
 //@   ensures [never-touches-the-source|C11] !called(source.SubscribeWithContext) && called(subject.SubscribeWithContext)
 //@   ensures [subscribing-leaves-the-connection-state-alone|C11] atunlock(subject) == atlock(subject) && atunlock(subscription) == atlock(subscription) && !called(callfn.ANY)
@@ -131,6 +139,7 @@ package ro
 //@   binds s connection
 //@   calls Lock Unlock disconnected
 //@   params -
+//@   scope config connection connections ctx ended mu s source subject subscription
 //@   inline (*connectableObservableImpl).disconnected
 //@   track callfn.config.Connector
 //@   ensures [handles-the-end-of-its-own-connection-under-the-lock|C11,C13] count(lock.mu) == 1
@@ -153,6 +162,7 @@ package ro
 //@ func ShareReplayWithConfig
 //@   props C11
 //@   binds config
+//@   scope bufferSize config
 //@   track call.ShareWithConfig
 //@   ensures [replays-after-completion-resets-on-refcount-as-configured|C11] trace(call.ShareWithConfig(fields(_, true, false, config.ResetOnRefCountZero)))
 
@@ -162,6 +172,7 @@ package ro
 //@   binds bufferSize
 //@   calls NewReplaySubject
 //@   params -
+//@   scope bufferSize config
 //@   track call.NewReplaySubject
 //@   ensures [connector-is-a-replay-subject-of-the-configured-size|C11] trace(call.NewReplaySubject(bufferSize))
 
@@ -170,6 +181,7 @@ package ro
 //@   binds bufferSize
 //@   calls NewReplaySubject
 //@   params -
+//@   scope bufferSize
 //@   track call.NewReplaySubject
 //@   ensures [connector-is-a-replay-subject-of-the-configured-size|C11] trace(call.NewReplaySubject(bufferSize))
 
@@ -178,42 +190,49 @@ package ro
 //@ func NewConnectableObservable
 //@   props C11
 //@   binds subscribe
+//@   scope subscribe
 //@   track call.NewObservable call.newConnectableObservableImpl
 //@   ensures [default-configuration-resets-on-disconnect|C11] trace(call.NewObservable(subscribe), call.newConnectableObservableImpl(res(call.NewObservable), fields(_, true)))
 
 //@ func NewConnectableObservableWithContext
 //@   props C11
 //@   binds subscribe
+//@   scope subscribe
 //@   track call.NewObservableWithContext call.newConnectableObservableImpl
 //@   ensures [default-configuration-resets-on-disconnect|C11] trace(call.NewObservableWithContext(subscribe), call.newConnectableObservableImpl(res(call.NewObservableWithContext), fields(_, true)))
 
 //@ func NewConnectableObservableWithConfig
 //@   props C11
 //@   binds subscribe config
+//@   scope config subscribe
 //@   track call.NewObservable call.newConnectableObservableImpl
 //@   ensures [uses-the-given-configuration|C11] trace(call.NewObservable(subscribe), call.newConnectableObservableImpl(res(call.NewObservable), config))
 
 //@ func NewConnectableObservableWithConfigAndContext
 //@   props C11
 //@   binds subscribe config
+//@   scope config subscribe
 //@   track call.NewObservableWithContext call.newConnectableObservableImpl
 //@   ensures [uses-the-given-configuration|C11] trace(call.NewObservableWithContext(subscribe), call.newConnectableObservableImpl(res(call.NewObservableWithContext), config))
 
 //@ func Connectable
 //@   props C11
 //@   binds source
+//@   scope source
 //@   track call.newConnectableObservableImpl
 //@   ensures [default-configuration-resets-on-disconnect|C11] trace(call.newConnectableObservableImpl(source, fields(_, true)))
 
 //@ func ConnectableWithConfig
 //@   props C11
 //@   binds source config
+//@   scope config source
 //@   track call.newConnectableObservableImpl
 //@   ensures [uses-the-given-configuration|C11] trace(call.newConnectableObservableImpl(source, config))
 
 //@ func newConnectableObservableImpl
 //@   props C11
 //@   binds source
+//@   scope complit config source
 //@   maypanic
 //@   track callfn.ANY
 //@   ensures [starts-disconnected-on-the-connector's-subject|C11] !panics ==> result.source == source && result.subscription == nil && count(callfn.ANY) == 1 && result.subject == res(callfn.ANY)
